@@ -19,3 +19,31 @@ Theorem C13_one_spec :
   let '(a', ys, ok) := srun a h in ok = true -> let '(m', xs) := run m h in xs = ys /\ Rel m' a'.
 Proof. exact Refine.run_refines. Qed.
 Print Assumptions C13_one_spec.
+
+(** FORMS (Proofs/Forms.v): detached-then-attached = plain (whole state equal, Model and Spec); async-polled = plain *)
+Require MRB.Proofs.Forms.
+Theorem C13_detached_block :
+  forall (m : Seq.mstate) (a : Pipe.pipe) (K : Types.stage) (os : list Types.op), Rel.Rel m a -> Seq.attached K m = true -> List.Forall (fun o : Types.op => Forms.det_form K o = true) os -> Seq.run m ((Types.Detach K :: nil) ++ os ++ Types.Attach K :: nil) = (fst (Seq.run m os), ((Types.OUnit, nil) :: snd (Seq.run m os) ++ (Types.OUnit, nil) :: nil)%list) /\ (snd (Pipe.srun a os) = true -> Pipe.srun a ((Types.Detach K :: nil) ++ os ++ Types.Attach K :: nil) = (fst (fst (Pipe.srun a os)), ((Types.OUnit, nil) :: snd (fst (Pipe.srun a os)) ++ (Types.OUnit, nil) :: nil)%list, true)).
+Proof. exact Forms.C13_detached_block. Qed.
+Print Assumptions C13_detached_block.
+
+Theorem C13_detached_form :
+  forall (m : Seq.mstate) (a : Pipe.pipe) (K : Types.stage) (o : Types.op), Rel.Rel m a -> Seq.attached K m = true -> Forms.det_form K o = true -> Seq.run m (Types.Detach K :: o :: Types.Attach K :: nil) = (fst (Seq.step m o), ((Types.OUnit, nil) :: snd (Seq.step m o) :: (Types.OUnit, nil) :: nil)%list) /\ (Pipe.ok_op a o = true -> Pipe.srun a (Types.Detach K :: o :: Types.Attach K :: nil) = (fst (Pipe.sstep a o), ((Types.OUnit, nil) :: snd (Pipe.sstep a o) :: (Types.OUnit, nil) :: nil)%list, true)).
+Proof. exact Forms.C13_detached_form. Qed.
+Print Assumptions C13_detached_form.
+
+Theorem C13_reset_form :
+  forall (m : Seq.mstate) (a : Pipe.pipe) (K : Types.stage), Rel.Rel m a -> Seq.attached K m = true -> K <> Types.P -> Seq.run m (Types.Detach K :: Types.DReset K :: Types.Attach K :: nil) = (fst (Seq.step m (Types.Reset K)), ((Types.OUnit, nil) :: snd (Seq.step m (Types.Reset K)) :: (Types.OUnit, nil) :: nil)%list) /\ Pipe.srun a (Types.Detach K :: Types.DReset K :: Types.Attach K :: nil) = (fst (Pipe.sstep a (Types.Reset K)), ((Types.OUnit, nil) :: snd (Pipe.sstep a (Types.Reset K)) :: (Types.OUnit, nil) :: nil)%list, true).
+Proof. exact Forms.C13_reset_form. Qed.
+Print Assumptions C13_reset_form.
+
+Theorem C13_async_form :
+  forall (s : Async.astate) (k : Types.stage) (o : Types.op), Async.future_of o = Some k -> Async.free_iter k s = true -> Seq.det (Seq.it_of k (Async.base s)) = false -> let r := Seq.step (Async.base s) o in Async.base (fst (Async.astep s (Async.APoll o))) = fst r /\ snd (Async.astep s (Async.APoll o)) = (if Async.refused (fst (snd r)) then Types.OPending else fst (snd r), snd (snd r)) /\ Async.held (fst (Async.astep s (Async.APoll o))) = Async.held s /\ (Async.refused (fst (snd r)) = true -> snd (snd r) = nil /\ fst r = Forms.stale k (Async.base s)).
+Proof. exact Forms.C13_async_form. Qed.
+Print Assumptions C13_async_form.
+
+Theorem C13_async_form_spec :
+  forall (s : Async.astate) (a : Pipe.pipe) (k : Types.stage) (o : Types.op), Rel.Rel (Async.base s) a -> Pipe.ok_op a o = true -> Async.future_of o = Some k -> Async.free_iter k s = true -> Seq.det (Seq.it_of k (Async.base s)) = false -> let r := Pipe.sstep a o in Rel.Rel (Async.base (fst (Async.astep s (Async.APoll o)))) (fst r) /\ snd (Async.astep s (Async.APoll o)) = (if Async.refused (fst (snd r)) then Types.OPending else fst (snd r), snd (snd r)) /\ (Async.refused (fst (snd r)) = true -> fst r = a /\ snd (snd r) = nil).
+Proof. exact Forms.C13_async_form_spec. Qed.
+Print Assumptions C13_async_form_spec.
+
